@@ -31,8 +31,8 @@ def compare(cs, fc, nodes_by_id):
             hd.path)
     if set(cs.heads.keys()) != fc.tips():
         return 'tips', "tip set %s, blocks without stored children %s" % (
-            sorted(nodes_by_id[b].path for b in cs.heads.keys() if b in nodes_by_id),
-            sorted(nodes_by_id[b].path for b in fc.tips()))
+            sorted((nodes_by_id[b].path for b in cs.heads.keys() if b in nodes_by_id), key=repr),
+            sorted((nodes_by_id[b].path for b in fc.tips()), key=repr))
     for n in fc.order:
         if n.bid not in cs.block_by_height_by_hash:
             return 'index', "no by-height index at stored block %s" % (n.path,)
@@ -47,7 +47,7 @@ def compare(cs, fc, nodes_by_id):
     except Exception as e:
         return 'forks', "forks() raises %r" % (e,)
     if fk != fc.forks():
-        return 'forks', "forks() reports %s" % sorted((nodes_by_id[a].path, nodes_by_id[b].path) for a, b in fk.items())
+        return 'forks', "forks() reports %s" % sorted(((nodes_by_id[a].path, nodes_by_id[b].path) for a, b in fk.items()), key=repr)
     return None
 
 
